@@ -70,6 +70,8 @@ type Term struct {
 	Name string // OpVar name; OpRaw format
 	Hi   int    // OpExtract
 	Lo   int
+	ub   uint64 // unsigned upper bound (valid if ubOK)
+	ubOK bool
 }
 
 func (t *Term) IsConst() bool { return t.Op == OpConst }
@@ -285,11 +287,154 @@ func (ts *TermStore) Ite(c, a, b *Term) *Term {
 
 // ---------- bit-vector arithmetic ----------
 
+// UB returns an unsigned upper bound of a bit-vector term (syntactic range
+// analysis; mask(w) when nothing better is known).
+func (ts *TermStore) UB(t *Term) uint64 {
+	if t.ubOK {
+		return t.ub
+	}
+	m := mask(t.W)
+	u := m
+	switch t.Op {
+	case OpConst:
+		u = t.Val
+	case OpZExt:
+		u = ts.UB(t.Args[0])
+	case OpExtract:
+		if t.Lo == 0 {
+			if x := ts.UB(t.Args[0]); x < u {
+				u = x
+			}
+		}
+	case OpConcat:
+		h := ts.UB(t.Args[0])
+		lw := uint(t.Args[1].W)
+		if h <= mask(t.Args[0].W) {
+			u = h<<lw | mask(int(lw))
+		}
+	case OpBAnd:
+		a, b := ts.UB(t.Args[0]), ts.UB(t.Args[1])
+		if a < b {
+			u = a
+		} else {
+			u = b
+		}
+	case OpBOr, OpBXor:
+		a, b := ts.UB(t.Args[0]), ts.UB(t.Args[1])
+		if b > a {
+			a = b
+		}
+		u = mask(bits.Len64(a))
+		if bits.Len64(a) == 0 {
+			u = 0
+		}
+	case OpLShr:
+		if c := t.Args[1]; c.IsConst() && c.Val < 64 {
+			u = ts.UB(t.Args[0]) >> c.Val
+		}
+	case OpShl:
+		if c := t.Args[1]; c.IsConst() && c.Val < 64 {
+			a := ts.UB(t.Args[0])
+			if bits.Len64(a)+int(c.Val) <= t.W {
+				u = a << c.Val
+			}
+		}
+	case OpAdd:
+		a, b := ts.UB(t.Args[0]), ts.UB(t.Args[1])
+		if s, carry := bits.Add64(a, b, 0); carry == 0 && s <= m {
+			u = s
+		}
+	case OpMul:
+		a, b := ts.UB(t.Args[0]), ts.UB(t.Args[1])
+		if hi, lo := bits.Mul64(a, b); hi == 0 && lo <= m {
+			u = lo
+		}
+	case OpURem:
+		if c := t.Args[1]; c.IsConst() && c.Val > 0 {
+			u = c.Val - 1
+			if a := ts.UB(t.Args[0]); a < u {
+				u = a
+			}
+		}
+	case OpUDiv:
+		if c := t.Args[1]; c.IsConst() && c.Val > 0 {
+			u = ts.UB(t.Args[0]) / c.Val
+		}
+	case OpIte:
+		a, b := ts.UB(t.Args[1]), ts.UB(t.Args[2])
+		if b > a {
+			a = b
+		}
+		u = a
+	}
+	if u > m {
+		u = m
+	}
+	t.ub, t.ubOK = u, true
+	return u
+}
+
+// narrow performs an add/mul whose result provably fits k < w bits at width k
+// (bit-blasting a 64-bit multiplier for what is a 12-bit product is what makes
+// digit arithmetic slow).
+func (ts *TermStore) narrow(op Op, a, b *Term) *Term {
+	w := a.W
+	if w <= 16 || a.IsConst() && b.IsConst() {
+		return nil
+	}
+	ua, ub := ts.UB(a), ts.UB(b)
+	var res uint64
+	if op == OpAdd {
+		s, carry := bits.Add64(ua, ub, 0)
+		if carry != 0 {
+			return nil
+		}
+		res = s
+	} else {
+		hi, lo := bits.Mul64(ua, ub)
+		if hi != 0 {
+			return nil
+		}
+		res = lo
+	}
+	k := bits.Len64(res)
+	if k < 8 {
+		k = 8
+	}
+	k = (k + 7) &^ 7
+	if k > w/2 {
+		return nil
+	}
+	na := ts.lowBits(a, k)
+	nb := ts.lowBits(b, k)
+	return ts.ZExt(ts.bin(op, na, nb), w)
+}
+
+// lowBits returns the low k bits of t, pushing the truncation through sums
+// and products (whose low bits depend on the operands' low bits only). Used
+// by narrow only: memory byte-splitting must keep using plain Extract so that
+// a stored value reassembles to the very same term.
+func (ts *TermStore) lowBits(t *Term, k int) *Term {
+	if k >= t.W {
+		return t
+	}
+	switch t.Op {
+	case OpAdd, OpMul:
+		return ts.bin(t.Op, ts.lowBits(t.Args[0], k), ts.lowBits(t.Args[1], k))
+	}
+	return ts.Extract(t, k-1, 0)
+}
+
 func (ts *TermStore) bin(op Op, a, b *Term) *Term {
 	if a.W != b.W || a.W == 0 {
 		panic(fmt.Sprintf("bin %s: width mismatch %d vs %d", opNames[op], a.W, b.W))
 	}
 	w := a.W
+	if op == OpAdd || op == OpMul {
+		if n := ts.narrow(op, a, b); n != nil {
+			return n
+		}
+	}
 	if a.IsConst() && b.IsConst() {
 		x, y := a.Val, b.Val
 		var r uint64
@@ -402,6 +547,9 @@ func (ts *TermStore) bin(op Op, a, b *Term) *Term {
 			}
 			if b.Val == 1 {
 				return a
+			}
+			if b.Val == mask(w) {
+				return ts.Neg(a)
 			}
 		}
 	case OpBAnd:
